@@ -274,6 +274,131 @@ def independence(run, part):
                       dict(errors=[str(e)[:200] for e in errors[:4]]))
 
 
+def first_bcrypt_family(run, name, nthreads):
+    """fresh process, nothing loaded: several threads make the first bcrypt-family call at once; every one must get the right answer"""
+    import threading
+    from vlib.refimpl import formats as F
+    import passlib.hash as PH
+    h = getattr(PH, name)
+    salt22 = "abcdefghijklmnopqrstuu"
+    pw = "first call pw"
+    if name == "bcrypt_sha256":
+        good = F.bcrypt_sha256(pw.encode(), salt22, 4, "$2b$", 2)
+    elif name == "bcrypt":
+        good = F.bcrypt(pw.encode(), salt22, 4, "$2b$")
+    else:
+        return
+    sys.setswitchinterval(1e-6)
+    barrier = threading.Barrier(nthreads)
+    out = [None] * nthreads
+
+    def work(i):
+        barrier.wait()
+        try:
+            out[i] = (h.verify(pw, good), h.verify(pw + "x", good))
+        except Exception as e:
+            out[i] = "EXC:" + type(e).__name__
+    ths = [threading.Thread(target=work, args=(i,)) for i in range(nthreads)]
+    for t in ths:
+        t.start()
+    for t in ths:
+        t.join(120)
+    run.count("first_bcrypt_family_calls", nthreads)
+    run.case(("first-bcrypt-family", name, nthreads), dict(hasher=name, threads=nthreads, results=[str(o) for o in out]))
+    if any(o != (True, False) for o in out):
+        run.violation(f"C19|{name}|first-use-from-threads|wrong-result", f"{nthreads} threads verifying a reference-made {name} hash as the first bcrypt-family call of the process got {out}", dict(hasher=name, results=[str(o) for o in out]))
+
+
+def lazy_onload_retry(run):
+    """an onload hook that fails once: the failed first use changes nothing, the next use (same or another thread) runs the hook again"""
+    import threading
+    import passlib.context as C
+    for mode in ("sequential", "threads"):
+        calls = []
+
+        def hook(**kw):
+            calls.append(threading.get_ident())
+            if len(calls) == 1:
+                raise RuntimeError("configuration source not ready")
+            return dict(schemes=["md5_crypt", "sha256_crypt"], default="md5_crypt")
+        ctx = C.LazyCryptContext(schemes=["sha256_crypt"], onload=hook)
+        results = []
+
+        def use():
+            try:
+                results.append(ctx.hash("pw")[:3])
+            except RuntimeError:
+                results.append("RuntimeError")
+            except Exception as e:
+                results.append("EXC:" + type(e).__name__)
+        if mode == "sequential":
+            use()
+            use()
+            use()
+        else:
+            ths = [threading.Thread(target=use) for _ in range(4)]
+            for t in ths:
+                t.start()
+            for t in ths:
+                t.join(60)
+            use()
+        run.count("lazy_onload_retry_cases")
+        run.case(("lazy-onload-retry", mode), dict(mode=mode, results=results, hook_calls=len(calls)))
+        ok = results.count("RuntimeError") == 1 and all(r in ("RuntimeError", "$1$") for r in results) and len(calls) == 2
+        if not ok:
+            run.violation(f"C19|LazyCryptContext-onload|failed-first-use|{mode}", f"onload hook failing once ({mode}): results {results}, hook ran {len(calls)} time(s); expected one RuntimeError, then the hook's policy ($1$) for everyone", dict(mode=mode, results=results))
+
+
+def registry_enumeration(run, rounds):
+    """one thread enumerates the registry while another makes first lookups of unloaded names"""
+    import threading
+    import passlib.registry as R
+    import passlib.hash as PH
+    sys.setswitchinterval(1e-6)
+    names = ["fshp", "cisco_type7", "mssql2000", "oracle10", "lmhash", "crypt16", "sun_md5_crypt", "phpass", "mysql41", "postgres_md5"]
+    errors = []
+    for rnd in range(rounds):
+        for n in names:
+            h = R._handlers.pop(n, None)
+            PH.__dict__.pop(n, None)
+        stop = threading.Event()
+
+        def enumerate_():
+            try:
+                while not stop.is_set():
+                    lst = R.list_crypt_handlers()
+                    if "md5_crypt" not in lst or list(lst) != sorted(lst):
+                        errors.append("bad-list")
+                    R.list_crypt_handlers(loaded_only=True)
+            except Exception as e:
+                errors.append(type(e).__name__)
+
+        def load():
+            try:
+                for n in names:
+                    if R.get_crypt_handler(n).name != n:
+                        errors.append("wrong-handler")
+            except Exception as e:
+                errors.append("load:" + type(e).__name__)
+        a, b = threading.Thread(target=enumerate_), threading.Thread(target=load)
+        a.start()
+        b.start()
+        b.join(60)
+        stop.set()
+        a.join(60)
+        run.count("registry_enumeration_rounds")
+        if errors:
+            break
+    run.case(("registry-enumeration",), dict(rounds=rounds, names=names))
+    if errors:
+        run.violation(f"C19|registry-enumeration|first-use-race|{errors[0]}", f"enumerating the registry while another thread makes first lookups: {errors[:3]}", dict(errors=errors[:5]))
+
+
+def extras(run):
+    lazy_onload_retry(run)
+    registry_enumeration(run, 30 if run.tier == "quick" else 300)
+
+
 def body(run):
     names = list(targets())
     shards = [("explore", dict(tname=n, mode="p1")) for n in names]
@@ -281,11 +406,16 @@ def body(run):
     shards += [("explore", dict(tname=n, mode="t3")) for n in ("LazyCryptContext", "LazyBase64Engine", "md5_crypt-verify", "CryptContext-record-cache")]
     shards += [("stress", dict(tname=n, iters=25 if run.tier == "quick" else 600, nthreads=6)) for n in names if "registry" not in n]
     shards += [("independence", dict(part=i)) for i in range(2 if run.tier == "quick" else 6)]
+    shards += [("first_bcrypt_family", dict(name=n, nthreads=k)) for n in ("bcrypt_sha256", "bcrypt") for k in (1, 3, 6)]
+    shards += [("extras", dict())]
     by = {}
     for f, a in shards:
         by.setdefault(f, []).append(a)
     for f, al in by.items():
         run.parallel("checks.c19", f, al, timeout=1500 if run.tier == "quick" else 7000, env={"PASSLIB_BUILTIN_BCRYPT": ""})
+    run.require("first_bcrypt_family_calls", 10)
+    run.require("lazy_onload_retry_cases", 2)
+    run.require("registry_enumeration_rounds", 10)
     run.exhaustive = True
     run.extra["exhaustive_scope"] = ("for every target: all schedules 'thread A runs k statements of the anchored files, thread B runs to completion, A finishes' (k = 1..all; every second k "
                                      "beyond the first 60 in the quick tier for targets with more than 160 yield points); two-preemption and three-thread schedules are sampled")
